@@ -10,128 +10,17 @@
    A Go slice is (backing array, len); cap = length of the backing array.  [None] = Go panic
    (slice bounds out of range, index out of range, or the explicit panics of Reset). *)
 From Coq Require Import List Arith Lia Bool.
+From Mamba Require Export Canon.AutResetModel.
 Import ListNotations.
 
-Record slice := mk { arr : list nat; len : nat }.
-
-Definition vis (s : slice) : list nat := firstn (len s) (arr s).
-
-Fixpoint upd (l : list nat) (i v : nat) : list nat :=
-  match l, i with
-  | [], _ => []
-  | _ :: t, O => v :: t
-  | h :: t, S j => h :: upd t j v
-  end.
-
-(* s[:k] *)
-Definition reslice (s : slice) (k : nat) : option slice :=
-  if k <=? length (arr s) then Some (mk (arr s) k) else None.
-
-(* s[i] = v *)
-Definition wr (s : slice) (i v : nat) : option slice :=
-  if i <? len s then Some (mk (upd (arr s) i v) (len s)) else None.
-
-(* for j := i; j < i+k; j++ { s[j] = f(j) } *)
-Fixpoint fill (s : slice) (f : nat -> nat) (i k : nat) : option slice :=
-  match k with
-  | 0 => Some s
-  | S k' => match wr s i (f i) with None => None | Some s' => fill s' f (S i) k' end
-  end.
-
 Section WithSort.
-(* ints.Sort on a sub-slice; only "the result depends on the segment alone and keeps its length"
-   is used *)
 Variable sort : list nat -> list nat.
 Hypothesis sort_length : forall l, length (sort l) = length l.
 
-(* ints.Sort(s[start:stop]) *)
-Definition sort_seg (s : slice) (start stop : nat) : option slice :=
-  if (start <=? stop) && (stop <=? length (arr s)) then
-    Some (mk (firstn start (arr s) ++ sort (skipn start (firstn stop (arr s))) ++ skipn stop (arr s)) (len s))
-  else None.
-
-(* for j := range c { v := c[j]; order[index] = v; inCell[v] = i; index++ } *)
-Fixpoint fill_class (c : list nat) (i : nat) (order inCell : slice) (index : nat)
-  : option (slice * slice * nat) :=
-  match c with
-  | [] => Some (order, inCell, index)
-  | v :: t =>
-    match wr order index v with None => None | Some o1 =>
-    match wr inCell v i with None => None | Some ic1 => fill_class t i o1 ic1 (S index) end end
-  end.
-
-(* for i := range vertexClasses { start := index; <fill_class>; ints.Sort(order[start:index]);
-   binDividers[i] = index } *)
-Fixpoint fill_classes (cls : list (list nat)) (i : nat) (order inCell bd : slice) (index : nat)
-  : option (slice * slice * slice) :=
-  match cls with
-  | [] => Some (order, inCell, bd)
-  | c :: rest =>
-    match fill_class c i order inCell index with None => None | Some (o1, ic1, idx1) =>
-    match sort_seg o1 index idx1 with None => None | Some o2 =>
-    match wr bd i idx1 with None => None | Some bd1 =>
-      fill_classes rest (S i) o2 ic1 bd1 idx1 end end end
-  end.
-
-Record opst := mkop {
-  order : slice; binDividers : slice; binAges : slice; binsToCheck : slice;
-  value : slice; inCell : slice; age : nat; spl : nat }.
-
-(* the tail common to Reset and NewOrderedPartition once binDividers is set *)
-Definition ages_and_checks (bd ba btc : slice) : option (slice * slice) :=
-  match reslice ba (len bd) with None => None | Some ba1 =>
-  match fill ba1 (fun _ => 0) 0 (len ba1) with None => None | Some ba2 =>
-  match reslice btc (len bd) with None => None | Some btc1 =>
-  match fill btc1 (fun i => i) 0 (len btc1) with None => None | Some btc2 => Some (ba2, btc2) end end end end.
-
-(* CanonicalOrderedPartition.Reset(n, m, vertexClasses) *)
-Definition reset (op : opst) (n m : nat) (classes : option (list (list nat))) : option opst :=
-  if length (arr (order op)) <? n then None else
-  if length (arr (value op)) <? m then None else
-  match reslice (order op) n with None => None | Some o0 =>
-  match reslice (inCell op) n with None => None | Some ic0 =>
-  match
-    match classes with
-    | None =>
-      match fill o0 (fun i => i) 0 n with None => None | Some o1 =>
-      match (if 0 <? n
-             then match reslice (binDividers op) 1 with None => None | Some b => wr b 0 n end
-             else Some (binDividers op)) with None => None | Some bd1 =>
-      match fill ic0 (fun _ => 0) 0 (len ic0) with None => None | Some ic1 => Some (o1, ic1, bd1) end end end
-    | Some cl =>
-      match reslice (binDividers op) (length cl) with None => None | Some bd0 =>
-        fill_classes cl 0 o0 ic0 bd0 0 end
-    end
-  with None => None | Some (o1, ic1, bd1) =>
-  match ages_and_checks bd1 (binAges op) (binsToCheck op) with None => None | Some (ba, btc) =>
-  match reslice (value op) 0 with None => None | Some v =>
-    Some (mkop o1 bd1 ba btc v ic1 0 0) end end end end end.
-
-(* NewOrderedPartition(n, m, vertexClasses), n > 0 (it returns nil for n = 0: None here) *)
-Definition new_op (n m : nat) (classes : option (list (list nat))) : option opst :=
-  if n =? 0 then None else
-  let o0 := mk (repeat 0 n) n in
-  let bdm := mk (repeat 0 n) n in
-  let ic0 := mk (repeat 0 n) n in
-  match
-    match classes with
-    | None =>
-      match fill o0 (fun i => i) 0 n with None => None | Some o1 =>
-      match reslice bdm 1 with None => None | Some b =>
-      match wr b 0 n with None => None | Some bd1 => Some (o1, ic0, bd1) end end end
-    | Some cl =>
-      match reslice bdm (length cl) with None => None | Some bd0 =>
-        fill_classes cl 0 o0 ic0 bd0 0 end
-    end
-  with None => None | Some (o1, ic1, bd1) =>
-  (* binAges := make([]int, len(binDividers), n); binsToCheck likewise; both loops as in Reset *)
-  match ages_and_checks bd1 (mk (repeat 0 n) n) (mk (repeat 0 n) n) with None => None | Some (ba, btc) =>
-    Some (mkop o1 bd1 ba btc (mk (repeat 0 m) 0) ic1 0 0) end end.
-
-(* the state the algorithm can read *)
-Definition visible (op : opst) : list (list nat) * (nat * nat) :=
-  ([vis (order op); vis (binDividers op); vis (binAges op); vis (binsToCheck op);
-    vis (value op); vis (inCell op)], (age op, spl op)).
+Local Notation sort_seg := (AutResetModel.sort_seg sort).
+Local Notation fill_classes := (AutResetModel.fill_classes sort).
+Local Notation reset := (AutResetModel.reset sort).
+Local Notation new_op := (AutResetModel.new_op sort).
 
 (* ---------------------------------------------------------------- basic facts *)
 Lemma upd_length l i v : length (upd l i v) = length l.
@@ -242,7 +131,7 @@ Lemma sort_seg_spec s start c : wf s -> start + length c <= length (arr s) ->
     length (arr s') = length (arr s) /\ wf s' /\
     firstn (start + length c) (arr s') = firstn start (arr s) ++ sort c.
 Proof.
-  intros W H P. unfold sort_seg.
+  intros W H P. unfold AutResetModel.sort_seg.
   destruct (Nat.leb_spec start (start + length c)); [|lia].
   destruct (Nat.leb_spec (start + length c) (length (arr s))); [|lia]. simpl.
   assert (skipn start (firstn (start + length c) (arr s)) = c) as Hseg.
@@ -439,7 +328,7 @@ Qed.
 Theorem reset_spec op n m classes : 0 < n -> caps_ok op n m -> classes_ok n classes ->
   exists st, reset op n m classes = Some st /\ state_spec n classes st.
 Proof.
-  intros Hn (C1 & C2 & C3 & C4 & C5 & C6) Hok. unfold reset.
+  intros Hn (C1 & C2 & C3 & C4 & C5 & C6) Hok. unfold AutResetModel.reset.
   destruct (Nat.ltb_spec (length (arr (order op))) n); [lia|].
   destruct (Nat.ltb_spec (length (arr (value op))) m); [lia|].
   destruct (reslice_spec (order op) n C1) as (E1 & W1). rewrite E1.
@@ -478,7 +367,7 @@ Qed.
 Theorem new_op_spec n m classes : 0 < n -> classes_ok n classes ->
   exists st, new_op n m classes = Some st /\ state_spec n classes st.
 Proof.
-  intros Hn Hok. unfold new_op. destruct (Nat.eqb_spec n 0); [lia|].
+  intros Hn Hok. unfold AutResetModel.new_op. destruct (Nat.eqb_spec n 0); [lia|].
   assert (forall k, k <= n -> reslice (mk (repeat 0 n) n) k = Some (mk (repeat 0 n) k) /\ wf (mk (repeat 0 n) k)) as RS.
   { intros k Hk. apply (reslice_spec (mk (repeat 0 n) n) k). simpl. rewrite repeat_length. auto. }
   assert (wf (mk (repeat 0 n) n)) as W0 by (unfold wf; simpl; rewrite repeat_length; auto).
@@ -539,11 +428,6 @@ Proof.
 Qed.
 
 End WithSort.
-
-(* a concrete sort for the extracted model (ints.Sort sorts ascending) *)
-Fixpoint insert_sorted (x : nat) (l : list nat) : list nat :=
-  match l with [] => [x] | y :: t => if x <=? y then x :: l else y :: insert_sorted x t end.
-Definition isort (l : list nat) : list nat := fold_right insert_sorted [] l.
 
 Lemma insert_sorted_length x l : length (insert_sorted x l) = S (length l).
 Proof. induction l as [|y t IH]; simpl; auto. destruct (x <=? y); simpl; auto. Qed.
